@@ -156,7 +156,7 @@ def r5_5(ctx):
     ctx.rule(rid, "lazy-state assume/guarantee for Grid: the PPL_ASSERTs about congruences/generators being up to date or minimized (mined from the assertion-enabled view) are entry preconditions discharged at every call site along every CFG path, or entailed where they stand; update_congruences() additionally requires generators up to date (tabled implicit precondition); every content read of con_sys (gen_sys) happens in a state entailing congruences (generators) up to date. State: branch tests, update_* / minimize / set_* / clear_* members, and the invariants `minimized implies up to date` and `a non-empty grid has one description up to date`")
     prev = precond.use(precond.GRID)
     try:
-        n = precond.discharge(ctx, rid, R55_EXC, judged_atoms=("CU", "GU"), direct=True)
+        n = precond.discharge(ctx, rid, R55_EXC, judged_atoms=("CU", "GU", "NE"), direct=True)
     finally:
         precond.use(prev)
     ctx.floor(rid, n, 120, "assertions, call sites and description reads with lazy-state obligations")
